@@ -488,7 +488,58 @@ def r07_9(chk):
     chk.floor("R07.9", 1, "one refresh loop")
 
 
+def _class_attr(ci, name):
+    for c in ci.mro():
+        if name in c.assigns:
+            return c.assigns[name]
+    return None
+
+
+def r07_10(chk):
+    chk.rule("R07.10", "exported rules cover every input that is free by default: LikelihoodFunction.get_param_rules visits get_param_names(), which lists only definitions with user_param true -- so no input definition whose settings are optimisable by default (const_by_default false along its MRO) is hidden by `user_param = False`, at class level or on an instance; a hidden free input (the `<param>_partition` of a 'free' rate distribution) counts in nfp and is moved by optimise()/set_param_rule, yet its value is missing from the exported rules")
+    mods = [chk.repo.module("recalculation/definition.py"), chk.repo.module("recalculation/scope.py")]
+    classes = {}
+    for m in mods:
+        for ci in m.classes.values():
+            classes[ci.name] = ci
+
+    def free_by_default(ci):
+        v = _class_attr(ci, "const_by_default")
+        return isinstance(v, ast.Constant) and v.value is False
+
+    n = 0
+    # class level
+    for ci in classes.values():
+        v = ci.assigns.get("user_param")
+        if v is None or not (isinstance(v, ast.Constant) and v.value is False):
+            continue
+        names = [c.name for c in ci.mro()]
+        if "_LeafDefn" not in names and "_InputDefn" not in names:
+            continue
+        n += 1
+        chk.decide(not free_by_default(ci), "R07.10", key(ci.module, ci.name, "hidden from the exported rules only if constant by default"), ci.module.loc(ci.node), "user_param False on a definition that is constant by default", f"{ci.name} is hidden from get_param_names()/get_param_rules() but its settings are free by default")
+    # instance level
+    for m in mods:
+        for q, fn in m.all_functions():
+            made = {}
+            for st in walk_no_nested(fn):
+                if isinstance(st, ast.Assign) and len(st.targets) == 1 and isinstance(st.targets[0], ast.Name) and isinstance(st.value, ast.Call) and (call_name(st.value) or "") in classes:
+                    made[st.targets[0].id] = classes[call_name(st.value)]
+            for st in walk_no_nested(fn):
+                if isinstance(st, ast.Assign) and len(st.targets) == 1 and isinstance(st.targets[0], ast.Attribute) and st.targets[0].attr == "user_param" and isinstance(st.value, ast.Constant) and st.value.value is False:
+                    base = st.targets[0].value
+                    n += 1
+                    k = key(m, q, f"{norm(base)}.user_param = False")
+                    ci = made.get(base.id) if isinstance(base, ast.Name) else None
+                    if ci is None:
+                        chk.unresolved("R07.10", k, m.loc(st), f"class of `{norm(base)}` not resolved")
+                        continue
+                    chk.decide(not free_by_default(ci), "R07.10", k, m.loc(st), f"{ci.name} is constant by default", f"`{norm(st)}` hides a {ci.name} (free by default: N-1 optimiser parameters) from get_param_names(), so get_param_rules() never exports it: HKY85 with ordered_param='rate', distribution='free', bins=2: after set_param_rule('rate_partition', init=[0.05, 0.95]) a new function given the exported rules has lnL -100.4768 instead of -103.0198")
+    chk.floor("R07.10", 2, "NonScalarDefn / _LeafDefn class-level flags and the partition of WeightedPartitionDefn")
+
+
 def run(chk):
+    r07_10(chk)
     r07_9(chk)
     r07_8(chk)
     r07_7(chk)
